@@ -391,7 +391,7 @@ func (x *Exec) store(st *State, a *Addr, v Val, pos token.Pos) {
 			for i, f := range si.Fields {
 				arr, _ := x.reg.FieldArray(si, i)
 				fv := App(f.Sort, si.Sort+"_"+f.Name, tv)
-				x.heapSet(st, arr, sto(x.heapGet(st, arr), a.Ref, fv))
+				x.heapStoreAt(st, arr, a.Ref, fv)
 			}
 			return
 		}
@@ -403,7 +403,7 @@ func (x *Exec) store(st *State, a *Addr, v Val, pos token.Pos) {
 			cur := mkT(f.Sort, sel(h, a.Ref, f.Sort).S, f.T)
 			nv = x.inject(st, cur, f.T, a.Path[1:], tv, pos)
 		}
-		x.heapSet(st, arr, sto(h, a.Ref, nv))
+		x.heapStoreAt(st, arr, a.Ref, nv)
 		return
 	}
 	sort := x.reg.SortOf(a.Elem)
@@ -414,7 +414,7 @@ func (x *Exec) store(st *State, a *Addr, v Val, pos token.Pos) {
 		cur := mkT(sort, sel(h, a.Ref, sort).S, a.Elem)
 		nv = x.inject(st, cur, a.Elem, a.Path, tv, pos)
 	}
-	x.heapSet(st, arr, sto(h, a.Ref, nv))
+	x.heapStoreAt(st, arr, a.Ref, nv)
 }
 
 // assumeWF adds the well-formedness facts of a freshly read value (refs are allocated, ...)
@@ -431,6 +431,12 @@ func (x *Exec) assumeWF(st *State, v *Term) {
 		}
 	case *types.Interface:
 		st.AssumeOnce(Implies(Eq(App("Int", "itag", v), IntLit(0)), Eq(v, mk("Iface", "inil"))))
+	case *types.Struct:
+		if si := x.reg.structs[v.Sort]; si != nil {
+			for _, f := range si.Fields {
+				x.assumeWF(st, mkT(f.Sort, App(f.Sort, si.Sort+"_"+f.Name, v).S, f.T))
+			}
+		}
 	}
 }
 
